@@ -23,6 +23,11 @@ def run_rules(ctx, res):
         res.floor("anchor: emitter file", 0, 1)
         return
     files = [t for t in ts if t.is_format and "pub fn parse" in t.text]
+    # the file template is the one carrying the hash header; the `parse` item may have been moved into a template of
+    # its own that is spliced into it
+    with_hdr = [t for t in ts if t.is_format and "@sha256" in t.text]
+    if len(with_hdr) == 1 and (len(files) != 1 or files[0] is not with_hdr[0]):
+        files = with_hdr
     if len(files) != 1:
         res.floor("anchor: file template", len(files), 1)
         return
